@@ -355,6 +355,19 @@ func runC13(rc *RunCtx, i int) {
 			rc.Violate(i, "concurrent-merge-not-refused", "", fmt.Sprintf("a second Merge issued while the first was in progress returned %v instead of ErrMergeInProgress", err2), desc)
 			return
 		}
+		// a refused caller must not disturb the guard: further callers are refused as well
+		for k := 3; k <= 4; k++ {
+			ctx3, cancel3 := context.WithTimeout(context.Background(), 5*time.Second)
+			_, err3 := e.Merge(ctx3)
+			cancel3()
+			rc.Res.Count("concurrent_merge_checks", 1)
+			if !errors.Is(err3, bs.ErrMergeInProgress) {
+				gate.Open()
+				<-firstDone
+				rc.Violate(i, "concurrent-merge-not-refused", "", fmt.Sprintf("Merge call #%d issued while the first was still in progress (and after another call had been refused) returned %v instead of ErrMergeInProgress", k, err3), desc)
+				return
+			}
+		}
 	}
 	gate.Open()
 	if err := <-firstDone; err != nil || run.viol != "" {
